@@ -295,7 +295,33 @@ def c10(prog, rep):
     rep.assumptions += ['capacity (max >= num) after resize is not proved', 'behaviour over histories is not decided']
 
 
+def c18(prog, rep):
+    from . import hashrules as H
+    H.rule_c18(prog, rep)
+    rep.floor('H1', 5)
+    rep.floor('H2', 2)
+    rep.floor('H3-m32', 9)
+    rep.floor('H3-m128', 22)
+    rep.floor('H4-fnv', 4)
+    rep.floor('H5-md5', 70)
+    rep.floor('H6', 6)
+    rep.explanation = (
+        'Algorithm-skeleton agreement, decided on the AST without computing any hash: each function is normalised into an ordered '
+        'list of events (x *= C, x = rotl(x, a), x ^= y, x = x*5 + C, ...; constants folded, const locals substituted, rotates '
+        'recognised, commutative operands sorted) and compared, modulo consistent variable renaming, with the published algorithm: '
+        'MurmurHash3 x86_32 and x64_128 (block framing nblocks = n/B, tail = data + nblocks*B, switch on n & (B-1); loop body; the '
+        'tail byte law case k: K ^= tail[k-1] << 8*((k-1) mod W) with descending fall-through; tail mixes; finaliser; seed 0; result '
+        'word order), FNV-1 32/64 (offset basis; prime obtained by evaluating the shift-add statement as a linear form; multiply then '
+        'xor), MD5 (initial state; all 64 steps: register rotation, message word index, shift amount, constant = floor(2^32*|sin i|); '
+        'the four round functions by truth table). H1/H2: no branch depends on a data byte and counted scans test the count first '
+        '(pure function of exactly the given bytes). H6: the containers use murmur3_32 for slots and MD5 for key digests. '
+        'Not decided: value equality for all inputs (MD5Update/Final buffering and padding arithmetic are not modelled).')
+    rep.assumptions += ['MD5Update/MD5Final buffering, padding and length encoding are not modelled',
+                        'integer widths/overflow behaviour of the C types are as the published algorithms assume (uint32_t/uint64_t)']
+
+
 PROPS = {
+    'C18': dict(fn=c18, level='other'),
     'C10': dict(fn=c10, level='other'),
     'C05': dict(fn=c05, level='other'),
     'C01': dict(fn=c01, level='other'),
